@@ -10,6 +10,7 @@ import types
 from .. import build, envfix, framework as fw, translator
 
 ALPHABET = ["/", "\\", "a", "A", "b", ".", " ", ":", "\u00e9", "\u00c9"]
+CORE = ["/", "\\", "a", "A", ":", "."]       # thorough tier: longer pairs / triples over this sub-alphabet
 EXTRA = ["\u4e2d", "\u00df", "z", "Z", "-", "_", "c", "C", "1"]   # used by the long random stream
 
 
@@ -308,6 +309,30 @@ def laws_translate(provs, roots, path):
     return bad
 
 
+MALFORMED_ALPHABET = ["/", "a", "A", "\u03a3", "\u0130", "\u00df", ":"]     # Sigma, I-with-dot, sharp s
+
+
+def laws_beyond_fold(p, s, twin):
+    """The case laws WITHOUT the per-character-fold guard, for strings on which str.lower() is not a
+    per-character fold (outside fold_ok, so outside the theorems): the property still says "all paths"."""
+    bad = []
+    try:
+        for disp in (False, True):
+            n = p.normalize_path(s, disp)
+            if p.normalize_path(n, disp) != n:
+                bad.append(("normalize_idem", dict(s=s, disp=disp, n=n, nn=p.normalize_path(n, disp))))
+        if not p.paths_match(s, s.lower()):
+            bad.append(("match_case", dict(s=s, lower=s.lower())))
+        nd = p.normalize_path(s, True)
+        if p.basename(nd) != twin.basename(twin.normalize_path(s)):
+            bad.append(("display_keeps_leaf", dict(s=s, nd=nd)))
+        if p.normalize_path(nd) != p.normalize_path(s):
+            bad.append(("display_same_class", dict(s=s, nd=nd)))
+    except Exception as e:
+        bad.append(("total", dict(s=s, exc=repr(e))))
+    return bad
+
+
 def fold_sweep():
     """fold_ok against str.lower() for every code point: per-character, idempotent, and exactly the
     separators / ':' map to themselves.  -> (checked, exceptions, failures)"""
@@ -493,9 +518,14 @@ def run(ctx):
             compare(reqs, res, "unary")
             # ---- binary, exhaustive
             reqs, res = [], []
-            small = list(strings_upto(B))
-            for a in small:
-                for b in small:
+            small = list(strings_upto(2))
+            pairs = list(itertools.product(small, repeat=2))
+            if not quick:     # all pairs of length <= 3 over the core sub-alphabet as well
+                core = list(strings_upto(B, CORE))
+                seen = set(pairs)
+                pairs += [pr for pr in itertools.product(core, repeat=2) if pr not in seen]
+            for (a, b) in pairs:
+                if True:
                     reqs += [[4, cv, S(a), S(b), 0], [4, cv, S(a), S(b), 1], [6, cv, S(a), S(b), 0],
                              [6, cv, S(a), S(b), 1], [1, cv, [S(a), S(b)]]]
                     res += [im.sub(a, b, False), im.sub(a, b, True), im.match(a, b, False),
@@ -509,7 +539,7 @@ def run(ctx):
             compare(reqs, res, "binary")
             # ---- ternary, exhaustive
             reqs, res = [], []
-            tiny = list(strings_upto(T))
+            tiny = list(strings_upto(1)) if quick else list(strings_upto(T, CORE)) + ["b", " ", "\u00e9", "\u00c9"]
             # add structured triples so that replace_path succeeds often
             rng = ctx.sub_rng("tern%s%s%s" % (cs, win, alt))
             triples = list(itertools.product(tiny, repeat=3))
@@ -546,6 +576,21 @@ def run(ctx):
                     samples.append(dict(conv=dict(cs=cs, win=win, alt=alt), path=s, other=s2,
                                         normalize=p.normalize_path(s), is_subpath=repr(p.is_subpath(s, s2))))
             compare(reqs, res, "long")
+        # ---- malformed stream: strings whose lower() is not a per-character fold (real code only; deterministic)
+        stats["beyond_fold"] = 0
+        stats["beyond_fold_failures"] = 0
+        for win in (False, True):
+            p = make_prov(False, win)
+            twin = make_prov(True, win)
+            for s in strings_upto(3, MALFORMED_ALPHABET):
+                if per_char_lower(s):
+                    continue
+                stats["beyond_fold"] += 1
+                dist.add(("m", win, s))
+                for law, d in laws_beyond_fold(p, s, twin):
+                    stats["beyond_fold_failures"] += 1
+                    ctx.violation("law %s fails on the real helpers (string outside the per-character-fold hypothesis): %r" % (law, d),
+                                  dict(kind="law", law=law, conv=[False, win, "\\"], detail=d))
         # ---- translate: pairs of conventions and roots
         rng = ctx.sub_rng("translate")
         roots_pool = [("/local", "/remote"), ("/", "/r"), ("/a", "/"), ("/A/b", "/x y"), ("/a/", "\\r\\"), ("/a", "/a")]
@@ -587,10 +632,11 @@ def run(ctx):
     cov["evaluations"] = dist.total
     cov["distinct_nontrivial"] = dist.nontrivial
     cov["rule"] = ("exhaustive strings over the 10-letter alphabet {/ \\ a A b . space : e-acute E-acute}: unary helpers up to "
-                   "length %s, pairs up to %s, triples up to %s (+ structured triples), random long paths, translate over 6 root "
+                   "length %s, pairs up to length 2 (thorough: also up to %s over the 6-letter core {/ \\ a A : .}), triples up to "
+                   "length 1 (thorough: up to %s over the core) + structured triples, random long paths, translate over 6 root "
                    "pairs x 6 case/win_paths combinations; 5 conventions (case x win_paths, and one without alt_sep); a case is "
                    "non-trivial when its strings are non-empty; distinct = distinct (convention, strings) tuples"
-                   % ((4, 2, 1) if ctx.quick else (5, 3, 2)))
+                   % (4 if ctx.quick else 5, 3, 2))
     cov["exhaustive"] = False
     cov["samples"] = samples
     cov["streams"] = stats
